@@ -25,6 +25,7 @@ def evaluate(prop, variant, checks, tier):
         return None
     res = {"property": prop, "variant": variant, "patch": patch}
     sh(["git", "checkout", "--", "."], cwd=wt)
+    sh(["git", "clean", "-fdq", "--", "src"], cwd=wt)
     rc, out = sh(["git", "apply", patch], cwd=wt)
     if rc != 0:
         res["apply"] = "FAILED: " + out[-300:]
@@ -48,6 +49,7 @@ def evaluate(prop, variant, checks, tier):
             res["checks"][ck] = {"rc": rc, "detected": rc == 1 and "VIOLATION property=" in o, "signatures": sigs[:12], "wall_s": round(time.time() - t0, 1), "last": o.strip().splitlines()[-1][:300] if o.strip() else ""}
     finally:
         sh(["git", "checkout", "--", "."], cwd=wt)
+        sh(["git", "clean", "-fdq", "--", "src"], cwd=wt)
     json.dump(res, open(os.path.join(OUT, "%s-%s.json" % (prop, variant)), "w"), indent=1)
     return res
 
